@@ -14,7 +14,8 @@
 EXTENDS TreeOps, Gen_Names, Gen_Adjust, Defects
 TcDefectNames == {"tc-special-set", "tc-dialog-no-close-p", "tc-endbr-keeps-frameset-ok", "tc-afterbody-space",
                   "tc-command-void-in-head", "tc-chars-token-granularity", "tc-textarea-stays-in-body",
-                  "tc-cell-caption-ws-base", "tc-intable-other-drops-reprocess", "tc-frameset-pop-name-only"}
+                  "tc-cell-caption-ws-base", "tc-intable-other-drops-reprocess", "tc-frameset-pop-name-only",
+                  "tc-adoption-inner-loop-3", "tc-anyotherend-ignores-namespace", "tc-isindex-expansion"}
 Std(d) == d \notin KnownDefects
 
 \* ---------------------------------------------------------------------------------------------
@@ -374,7 +375,7 @@ StartTag(ps, mode, tok) ==
         ELSE IF nm \in {N_param, N_source, N_track} THEN NoRe(VoidInsert(ps, tok))
         ELSE IF nm = N_hr THEN NoRe([VoidInsert(CloseP(ps), tok) EXCEPT !.fok = FALSE])
         ELSE IF nm = N_image THEN StartTag(ps, "inBody", [tok EXCEPT !.n = N_img])
-        ELSE IF nm = N_isindex THEN
+        ELSE IF nm = N_isindex /\ ~Std("tc-isindex-expansion") THEN      \* the standard dropped the isindex expansion: ordinary element
             (IF ps.form # 0 THEN NoRe(ps)
              ELSE LET act == AttrVal(tok.a, N_action)
                       pr  == AttrVal(tok.a, N_prompt)
@@ -517,7 +518,9 @@ EndTagOtherInBody(ps, nm) ==
     LET RECURSIVE Walk(_)
         Walk(i) == IF i = 0 THEN ps
                    ELSE LET nd == ps.nodes[ps.open[i]] IN
-                        IF nd.n = nm THEN PopUntilNode(GenImplied(ps, nm), ps.open[i])
+                        \* html5lib compares the name only; the standard requires an HTML element of that name
+                        IF nd.n = nm /\ (nd.ns = "html" \/ ~Std("tc-anyotherend-ignores-namespace"))
+                        THEN PopUntilNode(GenImplied(ps, nm), ps.open[i])
                         ELSE IF IsSpecial(nd) THEN ps ELSE Walk(i - 1)
     IN Walk(Len(ps.open))
 
@@ -651,18 +654,24 @@ FirstSpecialFrom(ps, i) == IF i > Len(ps.open) THEN 0 ELSE IF IsSpecial(ps.nodes
 CloneNode(ps, id) == NewElem(ps, ps.nodes[id].ns, ps.nodes[id].n, ps.nodes[id].a)         \* new id = Len(result.nodes)
 \* st: [ps, fe, fb, last, node index, bookmark, count]
 AdoptionInner(ps, st) ==
-    IF st.cnt >= 3 THEN [ps |-> ps, st |-> st]
+    IF ~Std("tc-adoption-inner-loop-3") /\ st.cnt >= 3 THEN [ps |-> ps, st |-> st]      \* html5lib stops after three rounds
     ELSE LET idx  == st.idx - 1
              node == ps.open[idx]
-         IN IF ~InAfe(ps, node)
-            THEN AdoptionInner([ps EXCEPT !.open = RemoveAt(@, idx)], [st EXCEPT !.cnt = @ + 1, !.idx = idx])
-            ELSE IF node = st.fe THEN [ps |-> ps, st |-> [st EXCEPT !.cnt = @ + 1, !.idx = idx]]
-            ELSE LET bm == IF st.last = st.fb THEN FirstIndexOf(ps.afe, node, 1) + 1 ELSE st.bm
-                     p1 == CloneNode(ps, node)
+             cnt1 == st.cnt + 1
+             \* the standard goes on until the formatting element is met; after three rounds the nodes still met are dropped
+             \* from the list of active formatting elements (and therefore from the stack)
+             drop == Std("tc-adoption-inner-loop-3") /\ cnt1 > 3 /\ node # st.fe /\ InAfe(ps, node)
+             ps0  == IF drop THEN [ps EXCEPT !.afe = RemoveFirst(@, node)] ELSE ps
+             bm0  == IF drop /\ FirstIndexOf(ps.afe, node, 1) < st.bm THEN st.bm - 1 ELSE st.bm
+         IN IF ~InAfe(ps0, node)
+            THEN AdoptionInner([ps0 EXCEPT !.open = RemoveAt(@, idx)], [st EXCEPT !.cnt = cnt1, !.idx = idx, !.bm = bm0])
+            ELSE IF node = st.fe THEN [ps |-> ps0, st |-> [st EXCEPT !.cnt = cnt1, !.idx = idx]]
+            ELSE LET bm == IF st.last = st.fb THEN FirstIndexOf(ps0.afe, node, 1) + 1 ELSE st.bm
+                     p1 == CloneNode(ps0, node)
                      cl == Len(p1.nodes)
-                     p2 == [p1 EXCEPT !.afe[FirstIndexOf(ps.afe, node, 1)] = cl, !.open[idx] = cl]
+                     p2 == [p1 EXCEPT !.afe[FirstIndexOf(ps0.afe, node, 1)] = cl, !.open[idx] = cl]
                      p3 == [p2 EXCEPT !.nodes = AppendChild(@, cl, st.last)]
-                 IN AdoptionInner(p3, [st EXCEPT !.cnt = @ + 1, !.idx = idx, !.bm = bm, !.last = cl])
+                 IN AdoptionInner(p3, [st EXCEPT !.cnt = cnt1, !.idx = idx, !.bm = bm, !.last = cl])
 AdoptionOuter(ps, tok, round) ==
     IF round > 8 THEN ps
     ELSE LET fe == AfeFind(ps, tok.n) IN
